@@ -51,6 +51,7 @@ class TG:
         self.focus = focus
         self.names: list[str] = []
         self.defined: list[str] = []
+        self.force_duplicate = False
 
     def tag(self, t):
         self.tags.add(t)
@@ -58,9 +59,9 @@ class TG:
 
     def ch(self, alts, prod):
         """pick one alternative (name, thunk) of production `prod`; the focus alternative is preferred once"""
-        if self.focus and self.focus[0] == prod:
+        if self.focus:
             for n, f in alts:
-                if n == self.focus[1]:
+                if f'{prod}.{n}' == self.focus:
                     self.focus = None
                     self.tag(f'{prod}.{n}')
                     return f()
@@ -92,10 +93,10 @@ class TG:
 
     def quoted(self, s=None):
         s = self.rng.choice(TOKENS) if s is None else s
-        return self.ch([
-            ('single', lambda: "'" + s.replace("'", "\\'") + "'"),
-            ('double', lambda: '"' + s.replace('"', '\\"') + '"'),
-        ], 'STRING')
+        alts = [('single', lambda: "'" + s.replace("'", "\\'") + "'"), ('double', lambda: '"' + s.replace('"', '\\"') + '"')]
+        if self.rng.random() < 0.9:          # mostly the quote that needs no escaping (the grammar's string patterns cut at \' )
+            alts = [a for a, q in zip(alts, "'\"") if q not in s] or alts
+        return self.ch(alts, 'STRING')
 
     def string(self):
         def multi():
@@ -113,16 +114,17 @@ class TG:
         return self.ch([
             ('/../', lambda: '/' + p + '/'),
             ('/../', lambda: '/' + p + '/'),
-            ('?"', lambda: '?"' + p.replace('"', '\\"') + '"'),
-            ("?'", lambda: "?'" + p.replace("'", "\\'") + "'"),
+            ('?"', lambda: '?"' + (p if '"' not in p else 'q+') + '"'),
+            ("?'", lambda: "?'" + (p if "'" not in p else 'q*') + "'"),
             ('deprecated', lambda: '?/' + p + '/?'),
         ], 'regex')
 
     def number(self):
-        return self.ch([('int', lambda: self.rng.choice(['0', '7', '-12', '+3'])),
-                        ('float', lambda: self.rng.choice(['1.5', '-.5', '2.', '1.0e-3'])),
+        # `literal` tries value -> number first: only a leading '+' reaches int, only '+' or a bare '.' reach float
+        return self.ch([('int', lambda: self.rng.choice(['+3', '+12', '+0'])),
+                        ('float', lambda: self.rng.choice(['+1.5', '-.5', '.25', '+2.e3'])),
                         ('hex', lambda: self.rng.choice(['0x1F', '0Xab'])),
-                        ('number', lambda: self.rng.choice(['10', '-1.25e+2', '0']))], 'literal.num')
+                        ('number', lambda: self.rng.choice(['10', '-1.25e+2', '0', '7', '-12', '1.5', '2.']))], 'literal.num')
 
     def literal(self):
         return self.ch([
@@ -155,9 +157,17 @@ class TG:
                      ('skip', lambda: '(?:' + self.pad(self.expre(d - 1)) + ')')]
         return self.ch(alts, 'atom')
 
+    def plain_atom(self, d):
+        """an atom that an `element` does not read as something else first (element tries meta before term)"""
+        for _ in range(20):
+            a = self.atom(d)
+            if not a.startswith('@'):
+                return a
+        return "'x'"
+
     def constant(self):
         return self.ch([
-            ('```', lambda: '```' + self.rng.choice(['x', 'a\nb', "it's `q`"]) + '```'),
+            ('```', lambda: '```' + self.rng.choice(['x', 'a\nb', "it's q"]) + '```'),
             ('`literal`', lambda: '`' + self.literal() + '`'),
             ('`text`', lambda: '`' + self.rng.choice(['two words', '1 + 1', '{x}', '']) + '`'),
         ], 'constant')
@@ -188,11 +198,11 @@ class TG:
                 ('left_join', lambda: self.sep_atom() + '<' + self.braces(d) + self.rng.choice('+-')),
                 ('right_join', lambda: self.sep_atom() + '>' + self.braces(d) + self.rng.choice('+-')),
                 ('positive_closure.{}', lambda: self.braces(d) + self.rng.choice('+-')),
-                ('positive_closure.atom+', lambda: self.atom(d - 1) + '+'),
+                ('positive_closure.atom+', lambda: self.plain_atom(d - 1) + '+'),
                 ('closure.{}', lambda: self.braces(d) + self.rng.choice(['', '*'])),
-                ('closure.atom*', lambda: self.atom(d - 1) + '*'),
+                ('closure.atom*', lambda: self.plain_atom(d - 1) + '*'),
                 ('optional.[]', lambda: '[' + self.pad(self.expre(d - 1)) + ']'),
-                ('optional.atom?', lambda: self.atom(d - 1) + '?'),
+                ('optional.atom?', lambda: self.plain_atom(d - 1) + '?'),
                 ('skip_to', lambda: '->' + self.term(d - 1)),
                 ('lookahead', lambda: '&' + self.term(d - 1)),
                 ('negative_lookahead', lambda: '!' + self.term(d - 1)),
@@ -212,7 +222,7 @@ class TG:
         return self.ch(alts, 'element')
 
     def sequence(self, d):
-        n = self.rng.choice([1, 1, 2, 2, 3, 4])
+        n = self.rng.choice([1, 1, 2, 2, 3])
 
         def spaced():
             return ''.join(self.element(d) + (self.sp() if i < n - 1 else '') for i in range(n))
@@ -252,22 +262,27 @@ class TG:
 
     def rule(self, name, last, d):
         out = ''
-        for _ in range(self.rng.choice([0, 0, 0, 1, 2])):
-            dec = self.rng.choice(['name', 'isname', 'nomemo', 'nostak', 'override'] if name in self.defined
-                                  else ['name', 'isname', 'nomemo', 'nostak'])
+        decs = [self.rng.choice(['name', 'isname', 'nomemo', 'nostak']) for _ in range(self.rng.choice([0, 0, 0, 1, 2]))]
+        if name in self.defined and self.rng.random() < 0.9:
+            decs.append('override')                                   # a redefinition is valid only with @override
+        for dec in decs:
             self.tag('decorator.' + dec)
             out += '@' + dec + self.rng.choice([' ', '\n'])
         out += name
+        colon_params = False
         if self.rng.random() < 0.3:
-            out += self.paramdef()
+            pd = self.paramdef()
+            colon_params = pd.startswith('::')
+            out += pd
         if self.defined and self.rng.random() < 0.15:
             self.tag('rule.base')
             out += ' < ' + self.rng.choice(self.defined)
-        op = self.rng.choice(['=', ':', '::=', ':='])
+        # after `name::A, b` the grammar's  {',' literal !'=' ~}  refuses a literal followed by '='
+        op = self.rng.choice([':', '::=', ':='] if colon_params else ['=', ':', '::=', ':='])
         self.tag('rule.op' + op)
         out += self.rng.choice([' ', '']) + op + self.sp()
         out += self.expre(d)
-        ends = ['semicolon', 'semicolon', 'dedent', 'blank'] + (['eof'] if last else [])
+        ends = ['semicolon'] * 6 + ['blank'] * 3 + ['dedent'] + (['eof'] * 4 if last else [])
         end = self.rng.choice(ends)
         self.tag('ENDRULE.' + end)
         out += {'semicolon': self.rng.choice([' ;', ';']) + self.rng.choice(['\n', '\n\n', ' ']), 'dedent': '\n', 'blank': '\n\n',
@@ -299,7 +314,7 @@ class TG:
 
     def grammar(self, nrules=None, depth=None):
         n = nrules or self.rng.choice([1, 1, 2, 3, 4])
-        d = self.rng.choice([1, 2, 2, 3]) if depth is None else depth
+        d = self.rng.choice([0, 1, 1, 2, 2, 3]) if depth is None else depth
         self.names = self.rng.sample(RULES, n)
         if self.rng.random() < 0.5 and 'start' not in self.names:
             self.names[0] = 'start'
@@ -307,14 +322,13 @@ class TG:
         for _ in range(self.rng.choice([0, 0, 1, 2, 3])):
             out += self.directive() if self.rng.random() < 0.75 else self.keyword()
         todo = list(self.names)
-        if n > 1 and self.rng.random() < 0.1:
+        if self.force_duplicate or (n > 1 and self.rng.random() < 0.1):
             todo.append(todo[0])                                      # a rule defined twice (valid only with @override)
         for i, name in enumerate(todo):
             out += self.rule(name, i == len(todo) - 1, d)
-            if self.rng.random() < 0.1 and not out.endswith((' ',)):
-                if i < len(todo) - 1 or self.rng.random() < 0.5:
-                    self.tag('keyword.between-rules')
-                    out += self.keyword()
+            if self.rng.random() < 0.1 and out.endswith('\n'):
+                self.tag('keyword.between-rules' if i < len(todo) - 1 else 'keyword.after-rules')
+                out += self.keyword()
         return out
 
 
@@ -332,8 +346,20 @@ def all_foci():
             g = TG(r)
             g.grammar()
             seen |= {t for t in g.tags}
-        FOCI = sorted(tuple(t.split('.', 1)) for t in seen if '.' in t)
+        FOCI = sorted(seen)
     return FOCI
+
+
+def focused(rng, tag, small):
+    """a generated text whose construction used the alternative / decoration `tag` (None if the generator cannot place it)"""
+    for _ in range(400):
+        g = TG(rng, focus=tag)
+        if tag == 'decorator.override':
+            g.force_duplicate = True
+        t = g.grammar(nrules=(1 if small else rng.choice([1, 2, 3])), depth=(rng.choice([0, 1]) if small else rng.choice([0, 1, 1, 2])))
+        if tag in g.tags:
+            return g, t
+    return None, None
 
 
 MUT_CHARS = list("{}[]()<>|;:=+*-?!&~@$^`'\"/\\.,%# \n") + ['::', '@@', '->', '>>', '.{', '%{', '```', "'''", '(?:', '?/', '/?', 'x']
@@ -353,8 +379,10 @@ def mutate(rng, s: str) -> str:
             s = s[:i] + s[i + 1] + s[i] + s[i + 2:]
         elif k < 0.85:
             s = s[:i] + rng.choice(MUT_CHARS) + s[i + 1:]
-        elif k < 0.93:
+        elif k < 0.90:
             s = s[:i]
+        elif k < 0.95:
+            s = s[:i] + s[i].swapcase() + s[i + 1:]
         else:
             j = rng.randrange(len(s))
             a, b = min(i, j), max(i, j)
@@ -501,7 +529,8 @@ BASE_PRODS = {'start', 'grammar', 'rule', 'expre', 'sequence', 'element', 'term'
 def compare(ctx, text, with_ast=True):
     """-> (disagreement or None, outcomes by parser, extra counters)"""
     parsers, (shipped_ast, interp_ast) = ctx['parsers']
-    outs = {n: canon(guarded(f, text)) for n, f in parsers.items()}
+    name = ctx.get('name')            # the name given to the generator / GrammarSemantics (None: taken from @@grammar)
+    outs = {n: canon(guarded(lambda t, f=f: f(t, name), text)) for n, f in parsers.items()}
     ref = outs['shipped']
     dis = None
     for n in ('interp', 'bootparser', 'regen'):
@@ -577,7 +606,15 @@ def shrink(ctx, text, dis, budget=60):
     return text
 
 
+MAX_REPORTS_PER_SHARD = 3
+
+
 def report(col, ctx, text, origin, dis, outs):
+    col.count('B2.disagreements')
+    ctx['reports'] = ctx.get('reports', 0) + 1
+    if ctx['reports'] > MAX_REPORTS_PER_SHARD:          # the verdict is already decided; shrinking costs ~60 comparisons each
+        col.count('B2.disagreements-not-shrunk-nor-reported')
+        return
     small = shrink(ctx, text, dis)
     dis2, outs2, _ = compare(ctx, small)
     if dis2 is None:
@@ -596,23 +633,15 @@ def report(col, ctx, text, origin, dis, outs):
 def shard(col, shard_i, nvalid, nmut, corpus):
     ctx = CTX
     ctx['parsers'] = make_parsers(ctx)
+    sys.stderr = open('/dev/null', 'w')           # GrammarSemantics prints a deprecation warning for every `>>`
     rng = col.rng
     foci = all_foci()
-    texts = []
-    # one focused text per (production, alternative), dealt round-robin to the shards; then unfocused ones
-    mine = [f for i, f in enumerate(foci) if i % ctx['nshards'] == shard_i]
-    for f in mine:
-        g = TG(rng, focus=f)
-        texts.append(('focus:' + '.'.join(f), g.grammar(), g.tags))
-    for _ in range(nvalid):
-        g = TG(rng)
-        texts.append(('random', g.grammar(), g.tags))
-    for i, (name, t) in enumerate(corpus):
-        if i % ctx['nshards'] == shard_i:
-            texts.append((f'corpus:{name}', t, set()))
     accepted = []
-    for origin, text, tags in texts:
-        dis, outs, extra = compare(ctx, text)
+
+    def run_valid(origin, text, tags, with_ast):
+        """-> True when all parsers accepted the text with equal models"""
+        ctx['name'] = 'Custom' if rng.random() < 0.25 else None
+        dis, outs, extra = compare(ctx, text, with_ast=with_ast)
         k = kind(outs['shipped'])
         col.case(['valid', text], nontrivial=True)
         col.count('generated.' + k)
@@ -621,33 +650,139 @@ def shard(col, shard_i, nvalid, nmut, corpus):
                 col.count(key, v)
         if dis:
             report(col, ctx, text, origin, dis, outs)
-            continue
-        if outs['shipped'][0] == 'ok':
-            accepted.append(text)
-            prods, cov_out = productions_of(ctx, text)
-            for p in prods:
-                col.count('production.' + p)
-            for t in tags:
-                col.count('alt.' + t)
-            for c in re.findall(r'"__class__": "(\w+)"', outs['shipped'][4]):
-                col.count('node.' + c)
-            if origin.startswith('focus:'):
+            return False
+        if outs['shipped'][0] != 'ok':
+            return False
+        accepted.append(text)
+        prods, _ = productions_of(ctx, text)
+        for p in prods:
+            col.count('production.' + p)
+        for t in tags:
+            col.count('alt.' + t)
+        for c in re.findall(r'"__class__": "(\w+)"', outs['shipped'][4]):
+            col.count('node.' + c)
+        col.sample({'origin': origin, 'text': text[:300], 'outcome': 'accepted by all four parsers, equal models'})
+        return True
+
+    # focused texts per (production, alternative), dealt round-robin to the shards, retried (at most 16 times) until one is
+    # accepted; every try is compared like any other text
+    for name in [f for i, f in enumerate(foci) if i % ctx['nshards'] == shard_i]:
+        for _try in range(16):
+            g, t = focused(rng, name, small=_try >= 3)
+            if g is None:
+                break
+            if run_valid('focus:' + name, t, g.tags, with_ast=True):
                 col.count('focus-accepted')
-            col.sample({'origin': origin, 'text': text[:300], 'outcome': 'accepted by all four parsers, equal models'})
-        elif origin.startswith('focus:'):
-            col.count('focus-not-accepted:' + origin[6:] + ':' + k)
-    # mutants of accepted texts (and of a few rejected ones)
-    pool = accepted or [t for _, t, _ in texts]
+                break
+        else:
+            col.count('focus-not-accepted:' + name)
+    for _ in range(nvalid):
+        g = TG(rng)
+        run_valid('random', g.grammar(), g.tags, with_ast=rng.random() < 0.5)
+    for i, (name, t) in enumerate(corpus):
+        if i % ctx['nshards'] == shard_i:
+            run_valid(f'corpus:{name}', t, set(), with_ast=True)
+    # mutants of the accepted texts
+    pool = [t for t in accepted if len(t) <= 500] or ["start = 'a' ;"]
     for _ in range(nmut):
-        base = rng.choice(pool)
-        if len(base) > 600:
-            continue
-        text = mutate(rng, base)
-        dis, outs, extra = compare(ctx, text, with_ast=rng.random() < 0.3)
+        text = mutate(rng, rng.choice(pool))
+        ctx['name'] = 'Custom' if rng.random() < 0.25 else None
+        dis, outs, extra = compare(ctx, text, with_ast=rng.random() < 0.25)
         col.case(['mutant', text], nontrivial=True)
         col.count('mutant.' + kind(outs['shipped']))
         if dis:
             report(col, ctx, text, 'mutant', dis, outs)
+
+
+def reachable_rules(M) -> set:
+    """rules of the grammar reachable from `start` through calls and includes"""
+    from tatsu import peg as g
+    rulemap = {r.name: r for r in M.rules}
+
+    def refs(n, acc):
+        if isinstance(n, (g.Call, g.RuleInclude)):
+            acc.add(n.name)
+        for f in ('exp', 'sep'):
+            c = getattr(n, f, None)
+            if isinstance(c, g.Model):
+                refs(c, acc)
+        for f in ('sequence', 'options'):
+            for c in getattr(n, f, None) or ():
+                refs(c, acc)
+        return acc
+
+    seen, todo = set(), ['start']
+    while todo:
+        r = todo.pop()
+        if r in seen or r not in rulemap:
+            continue
+        seen.add(r)
+        todo += sorted(refs(rulemap[r].exp, set()) - seen)
+
+    def calls(n, acc):
+        if isinstance(n, g.Call):
+            acc.add(n.name)
+        for f in ('exp', 'sep'):
+            c = getattr(n, f, None)
+            if isinstance(c, g.Model) and not isinstance(n, g.RuleInclude):
+                calls(c, acc)
+        for f in ('sequence', 'options'):
+            for c in getattr(n, f, None) or ():
+                calls(c, acc)
+        return acc
+    called = {'start'}
+    for r in seen:
+        called |= calls(rulemap[r].exp, set())
+    return seen, called & seen
+
+
+def unsatisfiable_rules(M, reachable) -> dict:
+    """productions that cannot succeed on any text, with the reason (checked, not assumed):
+    DEDENT = EOL &/^\\S/ - the pattern has no (?m), so `^` matches at offset 0 of the text only, and DEDENT starts with
+    EOL, which consumes a line end: the lookahead is always evaluated at an offset > 0."""
+    from tatsu import peg as g
+    out = {}
+    for r in M.rules:
+        if r.name not in reachable:
+            continue
+        e = r.exp
+        seq = list(getattr(e, 'sequence', []) or [])
+        if len(seq) == 2 and isinstance(seq[0], g.Call) and seq[0].name == 'EOL' and isinstance(seq[1], g.Lookahead) \
+                and isinstance(seq[1].exp, g.Pattern) and seq[1].exp.pattern.startswith('^') and '(?m' not in seq[1].exp.pattern:
+            probes = ['\nb', ' \nb', '\r\nb', '\n\nb', 'x\nb', '\n']
+            if all(guarded(lambda t: M.parse(t, start=r.name), p)[0] != 'ok' for p in probes):
+                out[r.name] = f'EOL followed by a lookahead for /{seq[1].exp.pattern}/ without (?m): ^ never matches after a line end'
+    # hex: called from `literal` only, after `value`; value -> number matches the leading 0 of every hex literal and an ordered
+    # choice never comes back to a later option once an earlier one succeeded
+    rulemap = {r.name: r for r in M.rules}
+
+    def option_name(o):
+        e = o.exp if isinstance(o, g.Option) else o
+        return e.name if isinstance(e, g.Call) else None
+
+    def calls_of(n, acc):
+        if isinstance(n, g.Call):
+            acc.add(n.name)
+        for f in ('exp', 'sep'):
+            c = getattr(n, f, None)
+            if isinstance(c, g.Model):
+                calls_of(c, acc)
+        for f in ('sequence', 'options'):
+            for c in getattr(n, f, None) or ():
+                calls_of(c, acc)
+        return acc
+    try:
+        lit, hx, num, val = rulemap['literal'], rulemap['hex'], rulemap['number'], rulemap['value']
+        order = [option_name(o) for o in lit.exp.options]
+        callers = {r.name for r in M.rules if 'hex' in calls_of(r.exp, set())}
+        if ('hex' in reachable and callers == {'literal'} and 'value' in order[:order.index('hex')]
+                and 'number' in calls_of(val.exp, set()) and isinstance(hx.exp, g.Pattern) and hx.exp.pattern.startswith('0[xX]')
+                and isinstance(num.exp, g.Pattern) and re.match(num.exp.pattern, '0x1') and re.match(num.exp.pattern, '0X1')):
+            out['hex'] = ('shadowed: `literal` tries `value` before `hex`, and value -> number matches the leading 0 of every text '
+                          'hex could match (ordered choice)')
+    except (KeyError, AttributeError, ValueError):
+        pass
+    return out
 
 
 # =========================================================================== B1
@@ -682,6 +817,14 @@ def b1(chk: Check, arts):
                     if n not in ma or n not in mb or pyast.dump(ma[n]) != pyast.dump(mb[n]):
                         first = 'rule=' + n if n != '__init__' else 'config'
                         break
+            if first is None and fname == 'bootparser.py':
+                import t_boot
+                mt = arts['model_trees']
+                d = t_boot.tree_diff(mt['t_boot_model'], mt['t_compiled_opt'])
+                if d and d[0] and d[0][0][1] < len(mt['t_boot_model'][2]):
+                    first = 'GRAMMAR_MODEL.rule=' + str(dict(mt['t_boot_model'][2][d[0][0][1]][1]).get('name', '?')).strip("'")
+                elif d:
+                    first = 'GRAMMAR_MODEL.' + d[1].split(':')[0]
             if first is None:
                 for i, (x, y) in enumerate(zip(ta.body, tb.body)):
                     if pyast.dump(x) != pyast.dump(y):
@@ -801,22 +944,27 @@ def main():
     CTX['nshards'] = nshards
     all_foci()
     if chk.quick:
-        vlib.run_sharded(chk, shard, nshards, extra=(14, 34, corpus))
+        vlib.run_sharded(chk, shard, nshards, extra=(8, 30, corpus))
     else:
         vlib.run_sharded(chk, shard, nshards, extra=(60, 160, corpus))
 
     # production coverage: every rule of _tatsu.ebnf reachable from `start` must have succeeded in some accepted text
     M = arts['M']
-    reachable = set(M._used_rule_names())
+    reachable, called = reachable_rules(M)
+    unsat = unsatisfiable_rules(M, reachable)
+    chk.extra['unsatisfiable_productions'] = unsat
+    include_only = sorted(reachable - called)
+    reachable = called - set(unsat)
     covered = {k[len('production.'):] for k in chk.dist if k.startswith('production.')}
     missing = sorted(reachable - covered)
-    unreachable = sorted(set(CTX['rulenames']) - reachable)
+    unreachable = sorted(set(CTX['rulenames']) - reachable - set(unsat) - set(include_only))
     foci = all_foci()
     alts_cov = {k[len('alt.'):] for k in chk.dist if k.startswith('alt.')}
-    alts_missing = sorted('.'.join(f) for f in foci if '.'.join(f) not in alts_cov)
+    alts_missing = sorted(f for f in foci if f not in alts_cov)
     chk.extra['coverage_productions'] = {
         'rules_in_grammar': len(CTX['rulenames']), 'reachable_from_start': len(reachable), 'covered': len(covered & reachable),
         'missing': missing, 'unreachable_rules_of_the_grammar': unreachable,
+        'reached_only_by_rule_include (no rule call of their own; covered through the generator alternatives)': include_only,
         'generator_alternatives': len(foci), 'alternatives_in_accepted_texts': len(alts_cov), 'alternatives_missing': alts_missing,
     }
     chk.obligation('B2 coverage: every production of _tatsu.ebnf reachable from start succeeded in an accepted text', 'oracle',
